@@ -161,6 +161,21 @@ type RewriteOpts struct {
 	Description string
 }
 
+// message renames the prefix inside the placeholders; with a second prefix bound to the same
+// namespace every other placeholder occurrence is written with it.
+func (o RewriteOpts) message(m string) string {
+	parts := strings.Split(m, "{{ex.")
+	out := parts[0]
+	for k, p := range parts[1:] {
+		px := o.Prefix
+		if o.AltPrefix != "" && k%2 == 1 {
+			px = o.AltPrefix
+		}
+		out += "{{" + px + "." + p
+	}
+	return out
+}
+
 func (o RewriteOpts) pred(i int) string {
 	if o.AltPrefix != "" && i%2 == 1 {
 		return fmt.Sprintf("%s.p%d", o.AltPrefix, i)
@@ -349,7 +364,7 @@ func (o RewriteOpts) Render(p Program) string {
 		vm := ymap()
 		entries := [][2]any{{"targetClass", ystr(fmt.Sprintf("%s.C%d", o.Prefix, v.Class))}}
 		if v.Message != "" {
-			entries = append(entries, [2]any{"message", ystr(strings.ReplaceAll(v.Message, "{{ex.", "{{"+o.Prefix+"."))})
+			entries = append(entries, [2]any{"message", ystr(o.message(v.Message))})
 		}
 		b := o.body(v.F)
 		for j := range b.Keys {
@@ -541,7 +556,7 @@ func BaseProfilesC15() []Program {
 			Atom{Path: P(1), Kind: "in", Values: []ast.Value{str("a"), str("b")}}, Atom{Path: P(1), Kind: "maxCount", N: 2})},
 		{Name: "vb", Level: "warning", Class: 1, F: Or{[]Formula{a(Atom{Path: P(0), Kind: "minLength", N: 2}), Not{a(Atom{Path: P(1), Kind: "minCount", N: 1})}}}},
 		{Name: "vc", Level: "info", Class: 0, F: If{C: a(Atom{Path: P(1), Kind: "in", Values: []ast.Value{str("a"), str("b")}}), T: a(Atom{Path: P(0), Kind: "minCount", N: 1}), E: a(Atom{Path: P(0), Kind: "maxCount", N: 0})}},
-		{Name: "vd", Level: "violation", Class: 1, F: a(Atom{Path: P(1), Kind: "containsSome", Values: []ast.Value{str("a"), str("b")}})},
+		{Name: "vd", Level: "violation", Class: 1, Message: "{{ex.p1}} then {{ex.p1}} and {{ex.p0}}", F: a(Atom{Path: P(1), Kind: "containsSome", Values: []ast.Value{str("a"), str("b")}})},
 	}}
 	inner := a(Atom{Path: P(1), Kind: "minCount", N: 1}, Atom{Path: P(1), Kind: "maxCount", N: 1})
 	b2 := Program{Name: "B2", Validations: []Validation{
